@@ -106,3 +106,17 @@ Definition reaches_outer_table (g x : string) (sk : list ev) : bool :=
 Definition only_text_raised (sites : list (string * list string)) : bool :=
   negb (Nat.eqb (length sites) 0) &&
   forallb (fun s => forallb (String.eqb "str") (snd s)) sites.
+
+(* ---- _run_search resets the sequence definitions BEFORE it reads the
+   first line: a task that failed inside an open section cannot leave the
+   definition "started" for the next search that uses it *)
+Fixpoint calls_before (stop : string) (sk : list ev) : list string :=
+  match sk with
+  | [] => []
+  | Call g :: r => if String.eqb g stop then [] else g :: calls_before stop r
+  | _ :: r => calls_before stop r
+  end.
+Definition resets_before_reading (sk : list ev) : bool :=
+  mem_str "seq_reset" (calls_before "enumerate_lines" sk)
+  && mem_str "enumerate_lines" (calls_of sk)
+  && negb (mem_str "sequence_search" (calls_before "enumerate_lines" sk)).
